@@ -57,7 +57,8 @@ def run(ctx, escalated=False):
         spec = json.loads(json.dumps(c.data["spec"]))
         spec["env"]["variables"].pop("OUTPUT_PATH", None)
         jobs.append({"id": c.data["id"], "spec": spec, "hash_ws": c.data["hash_ws"],
-                     "rlimit": c.data["rlimit"], "scripts": True})
+                     "rlimit": c.data["rlimit"], "scripts": True, "submit_order": True,
+                     "throttle": ctx.rng.choice([0, 0, 1, 2, 3])})
         cases.append(c)
     outs = run_workers(ctx, jobs, seeds)
     byid = [{item["id"]: item for item in o} for o in outs]
@@ -67,7 +68,7 @@ def run(ctx, escalated=False):
         c.nontrivial = len(c.data["params"]) >= 2 or any(
             "_*" in d for s in c.data["spec"]["study"] for d in s["run"].get("depends", []))
         for i, it in enumerate(items[1:], 1):
-            for field in ("out", "ser", "order", "status_order", "params", "scripts"):
+            for field in ("out", "ser", "order", "status_order", "params", "scripts", "submit_order"):
                 if it.get(field) != ref.get(field):
                     c.monitor.append(("repeatable",
                                       "PYTHONHASHSEED=%s vs %s: '%s' differs: %s | %s"
